@@ -52,6 +52,8 @@ def run(ctx):
     for c in cases:
         if c["kind"] == "intersect" and rng.random() < 0.3:
             c["batchings"] = list(c["batchings"]) + [[0] + [1] * len(c["pairs"])]
+        if c["kind"] == "intersect" and not c.get("tuplew") and not c.get("outer2") and rng.random() < 0.4:
+            c["oponly"] = 1
     for _ in range(250 if ctx.quick else 5000):
         k = rng.randint(2, 5)
         lists = [sorted(rng.sample(range(8), rng.randint(1, 5))) for _ in range(k)]
